@@ -105,18 +105,23 @@ def candGo (nn : Nat) : Nat → Bins → Cand
 
 def candAll (nn : Nat) (bins : Bins) : Cand := candGo nn 0 bins
 
+/-- `if radius < x { return radius }; return x` -/
+def capRadius (radius x : Nat) : Nat := if radius < x then radius else x
+
+/-- `shallowestUnsaturated` after the `ShallowestEmpty` correction -/
+def suOf (q : Nat) (bins : Bins) : Nat :=
+  let se := shallowestEmpty bins
+  let su0 := (scanAll q bins).su
+  if !se.2 && se.1 < su0 then se.1 else su0
+
+/-- `candidate` -/
+def candOf (nn : Nat) (bins : Bins) : Nat := (candAll nn bins).cand
+
 /-- `recalcDepth(peers, radius, filter)` -/
 def recalcDepth (p : Params) (bins : Bins) (radius : Nat) : Nat :=
   if binsLength bins ≤ p.nnLow then 0
-  else
-    let (se, noEmpty) := shallowestEmpty bins
-    let su0 := (scanAll p.quick bins).su
-    let su := if !noEmpty && se < su0 then se else su0
-    let candidate := (candAll p.nnLow bins).cand
-    if su > candidate then
-      (if radius < candidate then radius else candidate)
-    else
-      (if radius < su then radius else su)
+  else if suOf p.quick bins > candOf p.nnLow bins then capRadius radius (candOf p.nnLow bins)
+  else capRadius radius (suOf p.quick bins)
 
 /-- number of reachable peers in bin `b` -/
 def reachIn (bins : Bins) (b : Nat) : Nat := (bins.getD b []).count true
